@@ -163,7 +163,18 @@ class Replayer:
         elif sym in ("cfgbad", "upbad"):
             # a configuration that does not unpickle / an index that is not a byte string (cannot be written to the file)
             typ = "config" if sym == "cfgbad" else "upload_edb"
-            self.ws.peer_send(fs.msg(sid, typ, b"\x00not a pickle" if sym == "cfgbad" else None))
+            if sym == "cfgbad":
+                import pickle
+                # bytes that do not unpickle; a configuration that unpickles but cannot be stored as JSON (a value of raw
+                # bytes).  (Not used: content that unpickles to a LIST - the server stores it, moves to state 1 and every later
+                # connection fails in the constructor; a real client never sends it and the property's alphabet does not
+                # contain it: recorded as an observation in DESIGN.md 11.6, not judged.)
+                self.nbad = getattr(self, "nbad", self.fvar) + 1
+                bad = [b"\x00not a pickle", pickle.dumps(dict(fx["c1"], salt=b"\xff\xfe raw bytes"))]
+                content = bad[self.nbad % len(bad)]
+            else:
+                content = None
+            self.ws.peer_send(fs.msg(sid, typ, content))
             await self.settle()
             msgs = [m for m in fs.decode_server_msgs(self.ws.take_outbox()) if m["type"] != "control"]
             out = self.no_reply() if not msgs else ("refused" if all(m.get("ok") is False for m in msgs) else "garbled")
@@ -225,9 +236,29 @@ class Replayer:
         if self.ev[-1]["rep"] == 2:
             await self.request("search")
 
+    async def neighbour(self):
+        """Another service on the same server whose sid shares the 8-character display prefix with ours: configured with c2,
+        index e2, searched once, connection closed - all before our history starts.  It is environment: nothing of it is
+        judged, and nothing of it may show in our service."""
+        import pickle
+        fx = self.fx
+        sid2 = self.sid[:8] + hashlib.sha256(self.sid.encode()).hexdigest()[:56]
+        ws = self.world.open(sid2, "n0")
+        await self.settle()
+        ws.take_outbox()
+        for typ, content, extra in (("config", pickle.dumps(fx["c2"]), {}), ("upload_edb", fx["e2"], {}),
+                                    ("token", fx["tok"], {"token_digest": hashlib.sha256(fx["tok"]).digest()})):
+            ws.peer_send(fs.msg(sid2, typ, content, **extra))
+            await self.settle()
+            ws.take_outbox()
+        ws.peer_close()
+        await self.drain_timers()
+
     async def run(self, hist):
         if self.loopback:
             await self.world.start()
+        if self.fvar % 4 == 1:
+            await self.neighbour()
         for s in hist:
             await self.request(s)
         await self.probe()
